@@ -7,7 +7,8 @@ ASSUMPTIONS = ['"Content-Type present" = non-empty joined value; "status underst
                'Cache-Control is interpreted on unquoted directive lists (as the implementation does); header names and Cache-Control values are ASCII']
 RULE = ('grid over really signed exchanges: versions x {t-date, expires-t} in {-1s,-1ns,0,+1ns,+1s} x lifetime {604799,604800,604801} x methods {GET,HEAD,POST,get,PUT,""} x every entry of the stateful-request and '
         'uncached-response header tables in random letter case (plus harmless names) x Cache-Control subsets of {no-store,private,public,max-age,s-maxage,no-cache,junk} with case/space variations x Expires present/absent '
-        'x status codes 100..599 x validity-URL scheme/host/port variants; plus IsCacheable and Go-time ops; compared: Exchange.Verify verdict and payload')
+        'x status codes 100..599 x validity-URL scheme/host/port variants (incl. non-ASCII hosts whose Unicode case mapping / folding meets an ASCII letter: U+017F, U+212A, U+0130, U+0131, and non-ASCII fold pairs, on either side) '
+        'x cert-url resources with 1..3 certificates and every presence pattern of ocsp / sct (hand-written CBOR); plus IsCacheable and Go-time ops; compared: Exchange.Verify verdict and payload')
 EXHAUSTIVE = {'thorough': 'status codes 100..599 for b3 cacheability; every banned header name'}
 
 agree = Base.agree; nontrivial = Base.nontrivial; signature = Base.signature; explain = Base.explain
@@ -28,6 +29,88 @@ def classify(op, m):
 
 def randcase(rng, s):
     return bytes((c ^ 0x20) if (97 <= (c | 0x20) <= 122 and rng.random() < 0.4) else c for c in s)
+
+
+def _u(x):
+    return x.encode('utf-8')
+
+
+# (host of one URL, host of the other); used in both directions
+UNICODE_HOST_PAIRS = [(b'shop.example', _u('\u017fhop.example')), (b'SHOP.example', _u('\u017fhop.example')), (b'news.example', _u('new\u017f.example')), (b'host.example', _u('ho\u017ft.example')),
+                      (b'kiosk.example', _u('\u212aiosk.example')), (b'kiosk.example', _u('\u212aios\u212a.example')), (b'KIOSK.example', _u('kios\u212a.example')), (b'ask.example', _u('a\u017f\u212a.example')),
+                      (b'example.sk', _u('example.\u017f\u212a')),
+                      (b'site.example', _u('s\u0130te.example')), (b'SITE.example', _u('s\u0131te.example')), (b'site.example', _u('s\u0131te.example')),
+                      (_u('\u00e9.example'), _u('\u00c9.example')), (_u('\u03c3.example'), _u('\u03c2.example')), (_u('\u03c3.example'), _u('\u03a3.example')), (_u('\u00e5.example'), _u('\u212b.example')),
+                      (_u('stra\u00dfe.example'), b'strasse.example'), (_u('stra\u00dfe.example'), _u('stra\u1e9ee.example')), (b'shop.example', _u('\uff53hop.example')), (b'shop.example', _u('\u0455hop.example')),
+                      (_u('\u017fhop.example'), _u('\u017fhop.example')), (_u('\u017fhop.example'), _u('\u017fHOP.Example')), (_u('\u212aiosk.example'), _u('\u212aiosk.example:443')),
+                      (b'shop.example', b'chop.example'), (b'shop.example', b'Shop.Example')]
+
+
+def pct_host(h):
+    """the host with its non-ASCII bytes percent-encoded (upper-case hex, as net/url re-serialises it)"""
+    return b''.join(bytes([c]) if c < 0x80 else b'%%%02X' % c for c in h)
+
+
+def cbor_head(major, n):
+    if n < 24: return bytes([major << 5 | n])
+    if n < 256: return bytes([major << 5 | 24, n])
+    if n < 65536: return bytes([major << 5 | 25]) + n.to_bytes(2, 'big')
+    return bytes([major << 5 | 26]) + n.to_bytes(4, 'big')
+
+
+def chain_cbor(items):
+    """application/cert-chain+cbor written from the format's CDDL, independently of CertChain.Write (which refuses to write chains its
+    own Validate refuses): items = [(cert DER, ocsp bytes or None, sct bytes or None)]"""
+    magic = '\U0001F4DC\u26D3'.encode('utf-8')
+    out = cbor_head(4, len(items) + 1) + cbor_head(3, len(magic)) + magic
+    for der, ocsp, sct in items:
+        ents = [(k, v) for k, v in ((b'sct', sct), (b'cert', der), (b'ocsp', ocsp)) if v is not None]      # canonical key order
+        out += cbor_head(5, len(ents)) + b''.join(cbor_head(3, len(k)) + k + cbor_head(2, len(v)) + v for k, v in ents)
+    return out
+
+
+def chain_shapes():
+    """presence patterns of ocsp / sct over chains of one to three certificates. The format restricts only `ocsp` (required on the first,
+    forbidden on the others); `sct` is optional on EVERY certificate. -> [(pattern per certificate, each 'o' / 's' / 'e' (empty sct) letters)]"""
+    first = ['o', 'os', 'oe', '', 's']
+    later = ['', 's', 'e', 'o', 'os']
+    shapes = [[f] for f in first]
+    shapes += [[f, l] for f in first[:3] for l in later] + [['', 's'], ['s', 's']]
+    shapes += [[f, l2, l3] for f in first[:2] for l2 in later[:2] for l3 in later]
+    return shapes
+
+
+def chain_items(ctx, w, keys, certurl, base_date):
+    """an honestly signed, conforming exchange of every version, verified against every chain shape (leaf first, then unrelated further
+    certificates): accepted iff the chain is well-formed by the format's rules, whatever optional entries the later certificates carry"""
+    k0 = keys[0]
+    others = [unhex(k['cert']) for k in w.keys if k is not k0][:2]
+    ops = [f'sxg.sign {exs(ex(ver, b"https://example.com/", b"GET", [], 200, [(b"Content-Type", [b"text/html"])], b"", b"chain shapes"))} 16 {k0["cert"]} {k0["key"]} {hexs(certurl)} {hexs(b"https://example.com/v")} {base_date} {base_date + 3600}'
+           for ver in VERS]
+    signed = [parse_ex(r) for r in ctx.go(ops) if r and parse_ex(r)]
+    if len(signed) != len(VERS) or len(others) < 2:
+        ctx.infra.append('chain shapes: could not sign the base exchanges')
+        return []
+    chains, specs = [], []
+    for sh in chain_shapes():
+        its = []
+        for i, pat in enumerate(sh):
+            ocsp = b'ocsp-response' if 'o' in pat else None
+            sct = b'\x00\x06\x00\x04sct' + bytes([48 + i]) if 's' in pat else (b'' if 'e' in pat else None)
+            its.append(((unhex(k0['cert']) if i == 0 else others[i - 1]), ocsp, sct))
+        chains.append(chain_cbor(its))
+        specs.append(','.join(f'{hexs(d)}:{"nil" if o is None else hexs(o)}:{"nil" if s_ is None else hexs(s_)}' for d, o, s_ in its))
+    # the hand-made writer agrees with the model's writer wherever the model writes (a wrong hand-made chain would test nothing)
+    for c, m in zip(chains, ctx.model([f'cert.write {sp}' for sp in specs])):
+        if m and m.startswith('ok ') and m.split(' ')[1] != hexs(c):
+            ctx.infra.append('chain shapes: hand-made cert-chain writer differs from the model\'s')
+            return []
+    items = []
+    for se in signed:
+        for j, c in enumerate(chains):
+            items.append((se, (base_date + 10, 0), {certurl: hexs(c)}))
+            if j % 7 == 0: items.append((se, (base_date + 3601, 0), {certurl: hexs(c)}))      # control: one second after expires
+    return items
 
 
 def run(ctx):
@@ -97,6 +180,15 @@ def run(ctx):
                 case(ver, uri=b'https://' + h + pu + b'/', vurl=b'https://' + h + pv + b'/r.validity')
         case(ver, uri=b'https://[2001:db8::1]/', vurl=b'https://[2001:db8::2]/v')
         case(ver, uri=b'https://[2001:db8::1]/', vurl=b'https://2001:db8::1/v')
+        # hosts outside ASCII: host names are compared ASCII-case-insensitively and in no other way. Code points that Unicode case mapping /
+        # case folding sends to an ASCII letter (U+017F long s, U+212A Kelvin sign, U+0130, U+0131), pairs of non-ASCII letters that fold to
+        # each other, and look-alikes, at the first / a middle / the last position of a label, on either side (percent-encoded in the
+        # validity URL, which lives in an ASCII-only header; raw and percent-encoded in the request URL), with same-host controls
+        for hu, hv in UNICODE_HOST_PAIRS:
+            for a_, b_ in ((hu, hv), (hv, hu)):
+                case(ver, uri=b'https://' + a_ + b'/', vurl=b'https://' + pct_host(b_) + b'/v')
+                if pct_host(a_) != a_:
+                    case(ver, uri=b'https://' + pct_host(a_) + b'/', vurl=b'https://' + pct_host(b_) + b'/v')
         # windows that contain a daylight-saving change of some zone, lifetimes around 7 days (168 h of elapsed time, whatever the calendar
         # says), verified with the process's local zone set to zones that do / do not change in that week
         ZONES = ['America/New_York', 'Europe/Berlin', 'Australia/Sydney', 'Asia/Tokyo', 'UTC']
@@ -218,6 +310,8 @@ def run(ctx):
     for x in gback:
         e2 = parse_ex(x) if x else None
         if e2: items.append((e2, (base_date + 10, 0), {certurl: keys[0]['chain']}))
+    # certificate chains of several certificates with every presence pattern of the optional entries (hand-written CBOR)
+    items += chain_items(ctx, w, keys, certurl, base_date)
     ctx.stats = dict(cases=len(cases), not_signable=unsigned)
     verify_stage(ctx, items, tz=tzmap)
     # IsCacheable directly + Go time arithmetic
